@@ -207,13 +207,17 @@ def gen_case(rng, style, nops):
             return rng.randrange(-50, 50)
         return rng.choice([-(1 << 51), (1 << 51) - 1, 1 << 40])
 
-    qprob = {"batch": 0.25, "eager": 0.9}.get(style, 0.6)
+    qprob = {"batch": 0.25, "eager": 0.9, "eqfee": 0.8}.get(style, 0.6)
     for step in range(nops):
         t = m.top()
         live = sorted(t.txs)
         r = rng.random()
         if r < 0.26 and next_id < U:
-            emit("add %d %d %d" % (next_id, fee_pick(), size_pick()))
+            sz = size_pick()
+            # "eqfee": (almost) every transaction has the same feerate, so every transaction is its own
+            # chunk and the order inside a cluster rests on the equal-feerate tie-breaks
+            fee = 2 * sz if (style == "eqfee" and rng.random() < 0.85) else fee_pick()
+            emit("add %d %d %d" % (next_id, fee, sz))
             # often attach it right away (chains, diamonds)
             if live and rng.random() < 0.7:
                 for p in rng.sample(live, min(len(live), rng.choice([1, 1, 1, 2, 3]))):
@@ -283,7 +287,7 @@ def gen(rng, tier):
     n = 700 if tier == "quick" else 20000
     cases = []
     for i in range(n):
-        style = rng.choice(["eager", "mixed", "mixed", "batch"])
+        style = rng.choice(["eager", "mixed", "mixed", "batch", "eqfee"])
         cases.append(gen_case(rng, style, rng.choice([6, 10, 16, 24, 36, 50])))
     return cases
 
